@@ -8,8 +8,13 @@
  (iii) @each/@for loop variables are confined: defined in a fresh sub-scope, or in the
        enclosing scope between store_local_values / restore_local_values;
  (iv)  the two interpreters of sass::Item (handle_item, ScopeRef::eval_body) agree on the
-       scope discipline of every control-flow item.
+       scope discipline of every control-flow item;
+ (v)   variables are never forgotten: entries leave a scope's `variables` table only in
+       restore_local_values (which puts back what store_local_values saved for the loop
+       variables); no other function of the variablescope module removes, retains-by-filter,
+       clears or replaces the table — an assignment that reached a scope stays there.
 """
+import re
 from lib import ast as A, mir, cfgutil
 
 CONTROL = ("IfStatement", "Each", "For", "While")
@@ -63,6 +68,37 @@ def scope_name(x):
     while x.get("e") == "mcall" and x["m"] == "clone":
         x = A.strip(x["recv"])
     return A.show(x)
+
+
+REMOVAL_API = re.compile(r"BTreeMap<K, V, A>>::(remove|remove_entry|retain|clear|pop_first|pop_last|split_off|extract_if|first_entry|last_entry)$|std::mem::(take|replace|swap)$")
+REMOVAL_ALLOWED = {"<variablescope::Scope>::restore_local_values": "puts back the values that store_local_values saved for the loop variables (or removes a loop variable that did not exist before the loop)"}
+
+
+def variables_never_forgotten(ctx, prog):
+    from lib import sym
+    S = sym.Sym(prog, inline_depth=0)
+    n = 0
+    for d, b in sorted(prog.bodies.items()):
+        if "variablescope::" not in d:
+            continue
+        for bi, t in b.calls():
+            name = mir.callee_name(t) or ""
+            if not REMOVAL_API.search(name) or not t["args"]:
+                continue
+            recv = sym.show(S.operand(b, t["args"][0]))
+            if ".variables" not in recv:
+                continue
+            n += 1
+            root = d
+            while root in prog.bodies and prog.bodies[root].raw.get("parent"):
+                root = prog.bodies[root].raw["parent"]
+            api = mir.short(name).rsplit("::", 1)[-1]
+            key = f"{mir.short(root)}|variables.{api}"
+            if root in REMOVAL_ALLOWED:
+                ctx.reviewed("F8-variables-never-forgotten", key, REMOVAL_ALLOWED[root])
+            else:
+                ctx.fail("F8-variables-never-forgotten", key, f"{mir.short(root)} removes entries from a scope's variable table ({api}): an assignment that reached this scope — including a `!global` one when the scope is the root — can be forgotten afterwards", where=b.where(bi))
+    ctx.floor("removals from a scope's variable table", n, 1)
 
 
 def run(ctx, F):
@@ -159,6 +195,7 @@ def run(ctx, F):
         else:
             ctx.ok("F3-store-restore", "handle_item|@each", {"store": s, "restores": restores})
     callable_scopes(ctx, prog)
+    variables_never_forgotten(ctx, F.lib)
     ctx.explanation = ("Scope discipline extracted per Item arm of both interpreters (AST): where the body is evaluated (same scope / fresh sub-scope), where loop variables are defined, store/restore; "
                        "combined with whether Scope::set_variable can reach ancestors; exact shape of the !default guard; !global routing; CFG pairing of store/restore. "
                        "The full scoping relation over arbitrary nestings is a runtime relation and is not claimed.")
